@@ -119,12 +119,7 @@ func harnessC04(n int) {
 	if err != nil {
 		return
 	}
-	if fm != 0 {
-		// v1marshaler: the independent node reader knows the binary format only; what is compared is the
-		// root of this history with the root of the ascending re-insertion of the same contents
-		c04Reference(cur, r, bf, fm)
-		return
-	}
+	persistV1 = fm != 0 // v1marshaler nodes are read through the harness marshaler's own parser
 	rep := checkShape(st, r)
 	verifAssert("C09.complete", rep.complete)
 	verifAssert("C09.levels", rep.levelsOK)
